@@ -181,7 +181,7 @@ def table_pair(left, right):
     return {FACE: t}
 
 
-def run(P, table, vector=None, widths=None, padding=None, n_faces=2, other_component="auto", dims_scalar=None, partner_dims_swapped=False, prune=False, grid_boundary=None):
+def run(P, table, vector=None, widths=None, padding=None, n_faces=2, other_component="auto", dims_scalar=None, partner_dims_swapped=False, prune=False, grid_boundary=None, trailing_dim=False):
     """vector: None (scalar), 'parallel' (component along AX, the padded axis) or 'tangential' (component along AY)."""
     w = Lin.sym("w")
     # prune: the coordinate-bookkeeping test (`<dim> in <slice>.coords`) is taken as False; it does not influence
@@ -193,6 +193,7 @@ def run(P, table, vector=None, widths=None, padding=None, n_faces=2, other_compo
     fi = P.func("padding:pad")
 
     def mk(name, dims):
+        dims = list(dims) + ([Sym("zlast")] if trailing_dim else [])  # an extra dimension stored after the horizontal ones
         return make_da(name, dims, dims0=tuple(dims), n_faces=n_faces)
 
     def make():
